@@ -102,3 +102,11 @@ pub open spec fn disk_next(last: &Segment) -> int {
 
 // the message count a loaded segment reports (Segment::get_messages_count)
 pub open spec fn loaded_count(s: &Segment) -> int { if s.size_bytes == 0 { 0 } else { s.current_offset - s.start_offset + 1 } }
+
+// crash image: the log holds one complete batch more than the index (crash between save_batches and save_index)
+pub open spec fn image_log_ahead(start: int, f: Seq<BatchV>, ix: Seq<Index>) -> bool {
+    &&& f.len() >= 1 && ix.len() + 1 == f.len()
+    &&& image_wf(start, f.drop_last(), ix)
+    &&& batch_wf(f.last())
+    &&& contig(flat(f), start)
+}
